@@ -99,12 +99,60 @@ def check(N, mode, val, finished, kind, shuffle=False):
         return probs or None
 
 
+def two_out(a, b):
+    return a + b, a - b
+
+
+def check_df(finished, shuffle):
+    """partial reap to a DataFrame (one row per setting) of a function with two outputs: finished rows exact, others missing in every output"""
+    import pickle
+    combos = {"a": [1, 2, 3], "b": [10, 20]}
+    with tmpdir() as d, quiet():
+        crop = xyz.Crop(fn=two_out, name="df", parent_dir=d, num_batches=4)
+        crop.sow_combos(combos, shuffle=shuffle)
+        B = crop.num_batches
+        done = set()
+        for b in finished:
+            for kw in pickle.load(open(os.path.join(crop.location, "batches", f"xyz-batch-{b}.jbdmp"), "rb")):
+                done.add((kw["a"], kw["b"]))
+        crop.grow(tuple(finished))
+        try:
+            df = crop.reap_combos_to_ds(var_names=["s", "d"], to_df=True, allow_incomplete=True)
+        except BaseException as e:
+            return [f"partial reap to a DataFrame raised {type(e).__name__}: {e}"]
+        if len(df) != 6:
+            return [f"{len(df)} rows for 6 settings"]
+        for _, row in df.iterrows():
+            a, b = int(row["a"]), int(row["b"])
+            if (a, b) in done:
+                if (row["s"], row["d"]) != (a + b, a - b):
+                    return [f"row a={a} b={b} finished but holds s={row['s']!r} d={row['d']!r}"]
+            elif not (missing(row["s"], "num") and missing(row["d"], "num")):
+                return [f"row a={a} b={b} not grown but holds s={row['s']!r} d={row['d']!r}"]
+        if not os.path.isdir(crop.location):
+            return ["partial reap deleted the crop by default"]
+        crop.grow_missing()
+        full = crop.reap_combos_to_ds(var_names=["s", "d"], to_df=True)
+        if sorted((int(r["a"]), int(r["b"]), r["s"], r["d"]) for _, r in full.iterrows()) != sorted((a, b, a + b, a - b) for a in (1, 2, 3) for b in (10, 20)):
+            return ["full reap to a DataFrame after continuing is not exact"]
+    return None
+
+
+tried = 0
+for finished in ((1,), (2, 4), (1, 2, 3)):
+    for shuffle in (False, True):
+        tried += 1
+        try:
+            pr = check_df(finished, shuffle)
+        except Exception as e:
+            pr = [f"{type(e).__name__}: {e}"]
+        if pr:
+            finish(True, input=dict(form="DataFrame", outputs=2, combos={"a": [1, 2, 3], "b": [10, 20]}, num_batches=4, finished=list(finished), shuffle=shuffle), observed=pr, tried=tried)
 cands = []
 for N in range(2, 8):
     for mode, vals in (("batchsize", range(1, N)), ("num_batches", range(2, N + 1))):
         for v in vals:
             cands.append((N, mode, v))
-tried = 0
 for (N, mode, v) in cands:
     B = math.ceil(N / v) if mode == "batchsize" else min(v, N)
     subsets = []
